@@ -302,7 +302,8 @@ def _date_params(tier, seed):
     out = []
     for c in CLOSED:
         ms = range(1, 14 if c == "Coptic" else 13)
-        ms = ms if tier == "thorough" else [1 + (seed + j * 5) % 12 for j in range(3)]
+        # ISO / Gregorian: every month in both tiers (their 1900-2100 month-start table has per-month entries); others: 3 seeded months in quick
+        ms = ms if (tier == "thorough" or c in ("ISO", "Gregorian")) else [1 + (seed + j * 5) % 12 for j in range(3)]
         out += [[c, m] for m in ms]
     return out
 
@@ -332,7 +333,7 @@ def date(P):
 
 
 # ------------------------------------------------------------------------------------------------ ISO against the standard library
-@lemma({"y": int, "d": int}, params=lambda tier, seed: list(range(1, 13)) if tier == "thorough" else [1 + (seed + j * 5) % 12 for j in range(3)],
+@lemma({"y": int, "d": int}, params=lambda tier, seed: list(range(1, 13)),
        budget=150, per_path=40,
        bounds="every valid ISO (year, day) of the given month in years 1..9999: the pure-Python standard library's proleptic Gregorian ordinal "
               "(_pydatetime._ymd2ord, executed symbolically) equals the calculator's day number + 719163")
